@@ -83,7 +83,25 @@ def combos(tier):
                     C.append(dict(base, sigalgs=lst, cauth=1, sizes="10"))
     if tier == "quick":
         C = [c for i, c in enumerate(C) if "group" not in c and "sigalgs" not in c or i % 2 == 0]
+    # Ed25519 identities (generated by the check: the repository's test keys have none), TLS 1.3, both roles, with and without client
+    # authentication, with resumption
+    for role in ("client", "server"):
+        for (sid, oname) in ((0x1301, "TLS_AES_128_GCM_SHA256"), (0x1303, "TLS_CHACHA20_POLY1305_SHA256")):
+            base = dict(role=role, ver="T13", suite=hex(sid), oname=oname, key="ed", certdir=EDDIR)
+            C.append(dict(base, sizes="1,100,17000"))
+            C.append(dict(base, cauth=1, sizes="1,3000"))
+            C.append(dict(base, cauth=1, resume="ticket", sizes="2"))
     return C
+
+EDDIR = os.path.join(runner.WORK, "pki_C10")
+def make_ed_pki():
+    os.makedirs(EDDIR, exist_ok=True)
+    subprocess.run(["gcc", "-O1", "-w", "-o", os.path.join(runner.ROOT, "build/certgen"), os.path.join(runner.ROOT, "harness/certgen.c"), "-lcrypto"], check=True)
+    L = ["key kER ed", "key kEL ed", "cert edroot subj=EDR iss=EDR key=kER signkey=kER ca=1 ku=certSign",
+         "cert edleaf subj=localhost iss=EDR key=kEL signkey=kER ca=0 ku=digSig san=DNS:localhost"]
+    p = subprocess.run([os.path.join(runner.ROOT, "build/certgen"), EDDIR], input="\n".join(L) + "\n", capture_output=True, text=True)
+    if p.returncode != 0:
+        raise SystemExit("INFRA: certgen failed: " + p.stderr[-1000:])
 
 def run(tier, seed):
     prop = "C10"
@@ -93,6 +111,7 @@ def run(tier, seed):
     if p.returncode != 0:
         print(p.stderr[-3000:]); raise SystemExit("INFRA: mxossl build failed")
     wd = runner.workdir("check_C10")
+    make_ed_pki()
     C = combos(tier)
     env = dict(os.environ); env["ASAN_OPTIONS"] = "detect_leaks=1:exitcode=77"; env["UBSAN_OPTIONS"] = "halt_on_error=1:exitcode=78"
     def one(ic):
